@@ -190,9 +190,12 @@ fn hook(op: &str, s: bool, n: u32, a: &[&str]) -> String {
     }
 }
 
+include!("../ext_from.rs");
+
 fn main() {
     serve(|op, s, n, f, a| {
-        if op.starts_with("h_") { hook(op, s, n, a) }
+        if let Some(r) = ext_from_op(op, s, n, f, a) { r }
+        else if op.starts_with("h_") { hook(op, s, n, a) }
         else if op == "cvt_from" || op == "cvt_lossy" {
             let s2 = arg(a, 1) == "1"; let n2 = arg_u32(a, 2); let f2 = arg_u32(a, 3);
             if op == "cvt_from" { sfx_dispatch_from!(s, n, f, s2, n2, f2, run_from(a)) } else { sfx_dispatch_lossy!(s, n, f, s2, n2, f2, run_lossy(a)) }
